@@ -7,6 +7,7 @@
 //! output: space separated `field=value`;
 //!   routes ts tp es ep (text routes), ed (to_document tree), vt (Value::try_from), tt (Table::try_from):
 //!     `<r>=ok:<plain tree>` | `<r>=err:<ErrorVariant>`;  plain tree of a text route = the text re-parsed
+//!   `rtt<flags> <ty> <dec>` / `dvc <target> <ty> <seed>`  typed values of the type grammar: see c07typed.rs
 //!   `<r>.x=<hex text>` for text routes; typed cases add `<r>.rt=<eq|NE|deerr>[,<eq|NE|deerr>]` and `sval=<tokens joined by ','>`
 use crate::canon::{plain_toml, plain_toml_table};
 use crate::util::*;
@@ -64,7 +65,7 @@ thread_local! {
     static INTERN: RefCell<HashMap<String, &'static str>> = RefCell::new(HashMap::new());
 }
 
-fn intern(s: &str) -> &'static str {
+pub(crate) fn intern(s: &str) -> &'static str {
     INTERN.with(|m| {
         let mut m = m.borrow_mut();
         if let Some(x) = m.get(s) {
@@ -424,6 +425,28 @@ impl ser::Error for RecErr {
     }
 }
 
+thread_local! {
+    /// the arguments of the calls that `SVal` does not keep (length hints, variant indices), in call order;
+    /// collected only while `record_aux` runs
+    static AUX: RefCell<Option<Vec<String>>> = const { RefCell::new(None) };
+}
+
+fn aux(f: impl FnOnce() -> String) {
+    AUX.with(|a| {
+        if let Some(v) = a.borrow_mut().as_mut() {
+            v.push(f());
+        }
+    });
+}
+
+/// `record` plus the length hints and variant indices of the calls, in call order
+pub fn record_aux<T: Serialize + ?Sized>(v: &T) -> (SVal, String) {
+    AUX.with(|a| *a.borrow_mut() = Some(Vec::new()));
+    let r = v.serialize(Rec);
+    let log = AUX.with(|a| a.borrow_mut().take()).unwrap_or_default();
+    (r.expect("recording never fails"), log.join(","))
+}
+
 struct Rec;
 struct RecSeq(u8, N, N, Vec<SVal>);
 struct RecMap(Vec<(SVal, SVal)>, Option<SVal>);
@@ -504,33 +527,42 @@ impl Serializer for Rec {
         Ok(SVal::UnitStruct(n))
     }
     fn serialize_unit_variant(self, n: &'static str, _i: u32, v: &'static str) -> Result<SVal, RecErr> {
+        aux(|| format!("uv{_i}"));
         Ok(SVal::UnitVariant(n, v))
     }
     fn serialize_newtype_struct<T: Serialize + ?Sized>(self, n: &'static str, v: &T) -> Result<SVal, RecErr> {
         Ok(SVal::Newtype(n, Box::new(v.serialize(Rec)?)))
     }
     fn serialize_newtype_variant<T: Serialize + ?Sized>(self, n: &'static str, _i: u32, var: &'static str, v: &T) -> Result<SVal, RecErr> {
+        aux(|| format!("nv{_i}"));
         Ok(SVal::NewtypeVariant(n, var, Box::new(v.serialize(Rec)?)))
     }
     fn serialize_seq(self, _l: Option<usize>) -> Result<RecSeq, RecErr> {
+        aux(|| format!("seq{_l:?}"));
         Ok(RecSeq(0, "", "", vec![]))
     }
     fn serialize_tuple(self, _l: usize) -> Result<RecSeq, RecErr> {
+        aux(|| format!("tup{_l}"));
         Ok(RecSeq(1, "", "", vec![]))
     }
     fn serialize_tuple_struct(self, n: &'static str, _l: usize) -> Result<RecSeq, RecErr> {
+        aux(|| format!("ts{_l}"));
         Ok(RecSeq(2, n, "", vec![]))
     }
     fn serialize_tuple_variant(self, n: &'static str, _i: u32, v: &'static str, _l: usize) -> Result<RecSeq, RecErr> {
+        aux(|| format!("tv{_i}/{_l}"));
         Ok(RecSeq(3, n, v, vec![]))
     }
     fn serialize_map(self, _l: Option<usize>) -> Result<RecMap, RecErr> {
+        aux(|| format!("map{_l:?}"));
         Ok(RecMap(vec![], None))
     }
     fn serialize_struct(self, n: &'static str, _l: usize) -> Result<RecStruct, RecErr> {
+        aux(|| format!("st{_l}"));
         Ok(RecStruct(n, "", vec![]))
     }
     fn serialize_struct_variant(self, n: &'static str, _i: u32, v: &'static str, _l: usize) -> Result<RecStruct, RecErr> {
+        aux(|| format!("sv{_i}/{_l}"));
         Ok(RecStruct(n, v, vec![]))
     }
 }
@@ -741,17 +773,17 @@ fn toml_err(e: &toml::ser::Error) -> &'static str {
     }
 }
 
-struct Routes {
-    ts: Result<String, &'static str>,
-    tp: Result<String, &'static str>,
-    es: Result<String, &'static str>,
-    ep: Result<String, &'static str>,
-    ed: Result<toml_edit::DocumentMut, &'static str>,
-    vt: Result<toml::Value, &'static str>,
-    tt: Result<toml::Table, &'static str>,
+pub(crate) struct Routes {
+    pub ts: Result<String, &'static str>,
+    pub tp: Result<String, &'static str>,
+    pub es: Result<String, &'static str>,
+    pub ep: Result<String, &'static str>,
+    pub ed: Result<toml_edit::DocumentMut, &'static str>,
+    pub vt: Result<toml::Value, &'static str>,
+    pub tt: Result<toml::Table, &'static str>,
 }
 
-fn routes<T: Serialize>(v: &T) -> Routes {
+pub(crate) fn routes<T: Serialize>(v: &T) -> Routes {
     Routes {
         ts: toml::to_string(v).map_err(|e| toml_err(&e)),
         tp: toml::to_string_pretty(v).map_err(|e| toml_err(&e)),
@@ -773,7 +805,7 @@ fn text_field(name: &str, r: &Result<String, &'static str>, out: &mut Vec<String
     }
 }
 
-fn route_fields(r: &Routes, out: &mut Vec<String>) {
+pub(crate) fn route_fields(r: &Routes, out: &mut Vec<String>) {
     text_field("ts", &r.ts, out);
     text_field("tp", &r.tp, out);
     text_field("es", &r.es, out);
@@ -1722,6 +1754,8 @@ impl Gen for () {
 pub fn run(line: &str) -> String {
     let p: Vec<&str> = line.split(' ').collect();
     match p[0] {
+        k if k.starts_with("rtt") && p.len() == 3 => crate::c07typed::rtt(p[1], p[2]),
+        "dvc" if p.len() == 4 => crate::c07typed::dvc(p[1], p[2], p[3].parse().expect("seed")),
         k if k.starts_with('d') => run_dynamic(p[1..].to_vec()),
         "t" => typed(p[1], p[2].parse().expect("seed")),
         _ => panic!("kind"),
